@@ -437,60 +437,43 @@ func (m *Memory) FindLatest(
 
 		mTimeIdxs := mach.Index(s.MTimeStates)
 		b := machBuck.Bucket([]byte(BuckTimes))
-		var older *amhist.MemoryRecord
-		r := &amhist.MemoryRecord{
-			Time: &amhist.TimeRecord{},
-		}
 		var ret []*amhist.MemoryRecord
+		// the record read as [older] by the previous pass
+		var next *amhist.MemoryRecord
 
+	records:
 		for id := m.nextId.Load() - 1; id > 0; id-- {
 			if ctx.Err() != nil || m.Ctx.Err() != nil {
 				return nil
 			}
 
-			v := b.Get(itob(id))
-			if v == nil {
-				m.log("empty hit for %d", id)
-				break
-			}
-
 			// read TimeRecord
-			var err error
-			// 1st pass, move 1 more down
-			if older == nil {
-				id--
-				r.Time, err = DecTimeRecord(mach.Id(), id, v, cfg.EncJson)
+			r := next
+			if r == nil {
 				v := b.Get(itob(id))
-				if v != nil {
-					older = &amhist.MemoryRecord{
-						Time: &amhist.TimeRecord{},
-					}
-					older.Time, err = DecTimeRecord(mach.Id(), id, v, cfg.EncJson)
-					if err != nil {
-						m.onErr(err)
-						return nil
-					}
+				if v == nil {
+					m.log("empty hit for %d", id)
+					break
 				}
-
-				// 2nd and later passes
-			} else if v != nil {
-				r = older
-				older = &amhist.MemoryRecord{
-					Time: &amhist.TimeRecord{},
+				t, err := DecTimeRecord(mach.Id(), id, v, cfg.EncJson)
+				if err != nil {
+					m.onErr(err)
+					return nil
 				}
-				older.Time, err = DecTimeRecord(mach.Id(), id, v, cfg.EncJson)
-				// TODO tx
+				r = &amhist.MemoryRecord{Time: t}
+			}
 
-				// last pass
-			} else {
-				r = older
-				older = nil
+			// read the one before (none for the oldest record)
+			var older *amhist.MemoryRecord
+			if v := b.Get(itob(id - 1)); v != nil {
+				t, err := DecTimeRecord(mach.Id(), id-1, v, cfg.EncJson)
+				if err != nil {
+					m.onErr(err)
+					return nil
+				}
+				older = &amhist.MemoryRecord{Time: t}
 			}
-			// err
-			if err != nil {
-				m.onErr(err)
-				return nil
-			}
+			next = older
 
 			// states conditions
 			t := r.Time
@@ -498,35 +481,35 @@ func (m *Memory) FindLatest(
 			// Active
 			for _, state := range query.Active {
 				if !am.IsActiveTick(t.MTimeTracked[m.Index1(state)]) {
-					continue
+					continue records
 				}
 			}
 			// Activated
 			for _, state := range query.Activated {
 				idx := m.Index1(state)
 				if !am.IsActiveTick(t.MTimeTracked[idx]) {
-					continue
+					continue records
 				}
 				// if has previously been active
 				if older != nil && am.IsActiveTick(older.Time.MTimeTracked[idx]) {
-					continue
+					continue records
 				}
 			}
 			// Inactive
 			for _, state := range query.Inactive {
-				if am.IsActiveTick(t.MTimeTracked[mach.Index1(state)]) {
-					continue
+				if am.IsActiveTick(t.MTimeTracked[m.Index1(state)]) {
+					continue records
 				}
 			}
 			// Deactivated
 			for _, state := range query.Deactivated {
 				idx := m.Index1(state)
 				if am.IsActiveTick(t.MTimeTracked[idx]) {
-					continue
+					continue records
 				}
 				// if has previously been inactive
 				if older != nil && !am.IsActiveTick(older.Time.MTimeTracked[idx]) {
-					continue
+					continue records
 				}
 			}
 			// MTimeStates
@@ -590,6 +573,7 @@ func (m *Memory) FindLatest(
 
 			// read TransitionRecord
 			if retTx && cfg.StoreTransitions {
+				var err error
 				r.Transition, err = DecTransitionRecord(mach.Id(), id,
 					machBuck.Get(itob(id)), cfg.EncJson)
 				if err != nil {
